@@ -30,3 +30,24 @@ elif cmd == "run":
     w = wc()
     p = w.run_harness(["run", sub], input_text=text, timeout=600)
     print("RC", p.returncode); print(p.stdout if os.environ.get("FULL") else p.stdout[-6000:]); print(p.stderr[-int(os.environ.get("ERRTAIL", "6000")):])
+elif cmd == "judge":
+    # run <sub> on the cases of stdin and print the model's verdict per case
+    sub = sys.argv[2]
+    cases = {}
+    for line in sys.stdin.read().split("\n"):
+        if line.strip():
+            i, c = line.split(" ", 1)
+            cases[i] = c
+    w = wc()
+    p = w.run_harness(["run", sub], input_text="".join("%s %s\n" % kv for kv in cases.items()), timeout=600)
+    lines = ""
+    for l in p.stdout.split("\n"):
+        if "\t" in l:
+            i, o = l.split("\t", 1)
+            lines += "%s\t%s\t%s\n" % (i, cases[i], o)
+    for l in vlib.run_driver([sub], lines).split("\n"):
+        parts = l.split("\t")
+        if len(parts) == 4:
+            print(parts[0], parts[3], "|", parts[2][:300])
+            if os.environ.get("FULL"):
+                print("   model:", parts[1][:2000])
